@@ -125,6 +125,8 @@ class Unit:
             else:
                 raise ValueError("Only m and M are allowed as concentration units.")
         replacements = {'%v/v': 'L/L', '%w/w': 'g/g', '%w/v': config.default_weight_volume_units}
+        if concentration[-4:] in replacements and concentration[-5:-4] not in ('', ' '):
+            raise ValueError("A percent sign takes no prefix.")  # ('5 m%w/w' would become '5 mg/g')
         if concentration[-4:] in replacements:
             concentration = concentration[:-4] + replacements[concentration[-4:]]
             numerator, denominator = map(str.split, concentration.split('/'))
